@@ -46,6 +46,15 @@ pub fn harness_error(msg: &str) -> ! {
 // PANIC CAPTURE
 // ================================================================================================
 
+/// where the code under test lives (`/repo/` unless a scratch copy is being checked)
+pub fn repo_root() -> String {
+    let mut r = std::env::var("VERIF_REPO_ROOT").unwrap_or_else(|_| "/repo".to_string());
+    if !r.ends_with('/') {
+        r.push('/');
+    }
+    r
+}
+
 #[derive(Clone, Debug, Default)]
 pub struct PanicInfo {
     pub file: String,
@@ -81,7 +90,7 @@ pub fn install_panic_hook() {
 impl PanicInfo {
     /// true when the panic was raised from harness source (a bug in the machinery)
     pub fn in_harness(&self) -> bool {
-        !(self.file.starts_with("/repo/")
+        !(self.file.starts_with(&repo_root())
             || self.file.contains("/rustc/")
             || self.file.contains("/library/")
             || self.file.contains("/.cargo/registry/"))
@@ -90,7 +99,8 @@ impl PanicInfo {
     /// file (relative to the repository) plus the message with all digit runs masked; line
     /// numbers are left out so that the key survives unrelated edits of the file.
     pub fn site(&self) -> String {
-        let file = self.file.strip_prefix("/repo/").unwrap_or(&self.file);
+        let root = repo_root();
+        let file = self.file.strip_prefix(root.as_str()).unwrap_or(&self.file);
         let file = match file.find("/library/") {
             Some(i) => &file[i + 1..],
             None => file,
